@@ -42,7 +42,7 @@ SumSeq(s, i) == IF i > Len(s) THEN 0 ELSE s[i] + SumSeq(s, i + 1)
 (***************************************************************************)
 EmptyCfg == [conns |-> <<>>, sc |-> <<>>, cs |-> <<>>, budget |-> 0, props |-> <<>>]
 
-ObsInit == [cfg |-> EmptyCfg, str |-> <<>>, ep |-> <<>>, flags |-> {}, heal |-> <<>>]
+ObsInit == [cfg |-> EmptyCfg, str |-> <<>>, ep |-> <<>>, flags |-> {}, heal |-> <<>>, srv |-> <<>>]
 
 ChanIdx(cfg, dir, ch) == CHOOSE i \in 1..Len(cfg[dir]) : cfg[dir][i].id = ch
 HasChan(cfg, dir, ch) == \E i \in 1..Len(cfg[dir]) : cfg[dir][i].id = ch
@@ -89,7 +89,10 @@ ObsReset(cfg) ==
      str |-> [k \in StreamKeys(cfg) |-> NewStream(cfg, k)],
      ep  |-> [k \in EpKeys(cfg) |-> NewEp],
      flags |-> {},
-     heal |-> [c \in Range(cfg.conns) |-> [on |-> FALSE, bound |-> -1, rounds |-> 0]]]
+     heal |-> [c \in Range(cfg.conns) |-> [on |-> FALSE, bound |-> -1, rounds |-> 0]],
+     \* C12: per client id, what the server's event stream must look like: is a ClientConnected outstanding, and the
+     \* reasons of the removals not yet reported (FIFO)
+     srv |-> [c \in Range(cfg.conns) |-> [up |-> ~("manual" \in DOMAIN cfg /\ cfg.manual), expect |-> <<>>, owed |-> 0]]]
 
 Props(o) == Range(o.cfg.props)
 \* history is only kept for the clauses that are evaluated in this run (keeps the monitor state small)
@@ -189,6 +192,21 @@ ObsSend(o, e) ==
         o1 == FlagIf([o EXCEPT !.str[k] = s1],
                      e.st0.status = "Disc" /\ (e.st1.avail # e.st0.avail \/ e.st1.unacked # e.st0.unacked), <<"C12", "Absorbing">>)
     IN EpSeen(o1, e)
+
+\* broadcast_message(_except): a submission on the stream of every connection in the table that is not
+\* disconnected, minus the excluded one (C11: reaches exactly its targets, exactly once on reliable channels)
+RECURSIVE BcastInto(_, _, _)
+BcastInto(o, e, ts) ==
+    IF ts = <<>> THEN o ELSE
+    LET k == <<Head(ts), "sc", e.ch>> IN
+    IF k \notin DOMAIN o.str \/ Head(ts) = e.except THEN BcastInto(o, e, Tail(ts)) ELSE
+    LET s == o.str[k]
+        s1 == [s EXCEPT !.sub = IF s.kind = "RO" /\ Want(o, {"C01"}) THEN Append(@, e.cid) ELSE @,
+                        !.subN = IF WantCnt(o) THEN Put(@, e.cid, Get(@, e.cid, 0) + 1) ELSE @,
+                        !.acc = IF s.kind # "U" /\ WantAcc(o) THEN Append(@, [cid |-> e.cid, len |-> e.len]) ELSE @]
+    IN BcastInto([o EXCEPT !.str[k] = s1], e, Tail(ts))
+
+ObsBcast(o, e) == BcastInto(o, e, e.targets)
 
 (***************************************************************************)
 (* receive_message                                                         *)
@@ -458,7 +476,33 @@ ObsRoundEnd(o, e) ==
 (***************************************************************************)
 (* transport-status and server API calls (C12)                             *)
 (***************************************************************************)
-ObsApi(o, e) == EpSeen(o, e)
+\* a call that removed the server side connection of a client owes the application exactly one ClientDisconnected
+\* carrying the reason the connection was first disconnected with (Transport / DisconnectedByClient if it was healthy)
+ObsApi(o, e) ==
+    LET c == e.conn
+        removed == e.side = "S" /\ c \in DOMAIN o.srv /\ e.st0.status # "Gone" /\ e.st1.status = "Gone"
+        added == e.side = "S" /\ c \in DOMAIN o.srv /\ e.st0.status = "Gone" /\ e.st1.status # "Gone"
+        why == IF e.st0.status = "Disc" THEN e.st0.reason
+               ELSE IF e.call = "disconnect_local_client" THEN "DisconnectedByClient" ELSE "Transport"
+        o1 == IF removed THEN [o EXCEPT !.srv[c].expect = Append(@, why)]
+              ELSE IF added THEN [o EXCEPT !.srv[c].owed = @ + 1] ELSE o
+        \* C12: transport status calls do not revive a disconnected connection
+        o2 == FlagIf(o1, e.st0.status = "Disc" /\ e.st1.status \notin {"Disc", "Gone"}, <<"C12", "Absorbing">>)
+        \* new_local_client hands out a NEW client object: what was known about the old one no longer applies
+        o3 == IF e.call = "new_local_client" /\ <<c, "C">> \in DOMAIN o2.ep THEN [o2 EXCEPT !.ep[<<c, "C">>] = NewEp] ELSE o2
+    IN EpSeen(o3, e)
+
+ObsGetEvent(o, e) ==
+    IF ~e.res.some \/ e.res.id \notin DOMAIN o.srv THEN o ELSE
+    LET c == e.res.id
+        s == o.srv[c]
+    IN IF e.res.type = "Connected"
+       THEN Flag([o EXCEPT !.srv[c].up = TRUE, !.srv[c].owed = IF @ > 0 THEN @ - 1 ELSE 0],
+                 (IF s.up THEN {<<"C12", "Alternation">>} ELSE {}) \cup (IF s.owed = 0 THEN {<<"C12", "Alternation">>} ELSE {}))
+       ELSE Flag([o EXCEPT !.srv[c].up = FALSE, !.srv[c].expect = IF @ = <<>> THEN @ ELSE Tail(@)],
+                 (IF ~s.up THEN {<<"C12", "Alternation">>} ELSE {})
+                 \cup (IF s.expect = <<>> THEN {<<"C12", "Alternation">>} ELSE {})
+                 \cup (IF s.expect # <<>> /\ Head(s.expect) # e.res.reason THEN {<<"C12", "Reason">>} ELSE {}))
 
 (***************************************************************************)
 (* dispatcher                                                              *)
@@ -472,6 +516,8 @@ Dispatch(o, e) ==
       [] e.ev = "heal"      -> ObsHeal(o, e)
       [] e.ev = "round_end" -> ObsRoundEnd(o, e)
       [] e.ev = "api"       -> ObsApi(o, e)
+      [] e.ev = "get_event" -> ObsGetEvent(o, e)
+      [] e.ev = "bcast"     -> ObsBcast(o, e)
       [] OTHER              -> o
 
 \* diagnostics attached to a flagged event (not part of any verdict)
